@@ -46,6 +46,24 @@
 //!     when some distribution satisfies every instance.
 //! Violations of R-answer in such a group are reported as `C07/answer/repeated-request/...`.
 //!
+//! Further dimensions (hardening rounds):
+//!   * builder path (cfg 2, 3): the same schedules with the subject built by `ExecutionBuilder::add_live` for two
+//!     exchanges -> `ExecutionManager::init` (account stream + snapshot, response channel merged with the
+//!     account stream) -> `run` + `forward_to`; requests are routed through the `MultiExchangeTxMap`, events read
+//!     from the merged multi-exchange account channel. The request timeout handed to the builder is the T of
+//!     the oracle, so a timeout changed on the way, a lost / duplicated event in the merge or a wrong route shows.
+//!   * a request timeout with whole seconds and a sub-second part (T = 1.5 s).
+//!   * opens answered PARTLY filled (0 < filled < quantity): the client's own answer is an open order with
+//!     that filled quantity, not a fully filled one.
+//!   * "same terms" plans: every request names the same instrument and strategy and carries identical order
+//!     terms, so the requests differ in nothing but kind and client order id (the only thing the statement keys
+//!     answers on).
+//!   * load layer: every number n <= bound of requests outstanding TOGETHER (all opens / all cancels /
+//!     alternating, pairwise distinct cids; handed over one by one or all before the manager runs), the client
+//!     answering newest-first, all at once (the manager finds every answer ready in one poll), never (n timeouts
+//!     due at one instant) or mixed - "independent of how many requests are outstanding". Scripted schedules,
+//!     same oracle.
+//!
 //! Determinism self-check: a fixed subset of the schedules is executed twice. Different (each time
 //! allowed) observations are a machinery failure (exit 2) when the run finds no violation at all;
 //! when it does, the subject itself is schedule-dependent beyond what the harness controls and the
@@ -60,7 +78,15 @@ use crate::explore::{
     choice::{self, Chooser},
     env::{flag_waker, paused_rt, poll_quiesce},
 };
-use barter::execution::{AccountStreamEvent, manager::ExecutionManager, request::ExecutionRequest};
+use barter::{
+    engine::execution_tx::{ExecutionTxMap, MultiExchangeTxMap},
+    execution::{
+        AccountStreamEvent,
+        builder::{ExecutionBuild, ExecutionBuilder},
+        manager::ExecutionManager,
+        request::ExecutionRequest,
+    },
+};
 use barter_data::streams::reconnect::Event as RcEvent;
 use barter_execution::{
     AccountEvent, AccountEventKind, UnindexedAccountEvent, UnindexedAccountSnapshot,
@@ -85,7 +111,7 @@ use barter_instrument::{
     asset::{AssetIndex, QuoteAsset, name::AssetNameExchange},
     exchange::{ExchangeId, ExchangeIndex},
     index::IndexedInstruments,
-    instrument::{InstrumentIndex, name::InstrumentNameExchange},
+    instrument::{InstrumentIndex, name::{InstrumentNameExchange, InstrumentNameInternal}},
 };
 use barter_integration::{
     channel::{Tx, mpsc_unbounded},
@@ -144,6 +170,8 @@ pub enum Beh {
     Err,
     /// open only: Ok with filled_quantity == quantity
     Filled,
+    /// open only: Ok with 0 < filled_quantity < quantity (half of it)
+    Partial,
 }
 
 /// Bounds of one exploration run (recorded in the case so that a replay rebuilds the same choice tree).
@@ -159,12 +187,21 @@ pub struct Params {
     pub burst: bool,
     /// include the fully-filled behaviour for opens
     pub filled: bool,
+    /// include the partially-filled behaviour for opens (only together with `filled`)
+    #[serde(default)]
+    pub partial: bool,
+    /// all requests of the batch carry identical terms (instrument, strategy, side, price, quantity, kind,
+    /// time in force / no order id): only kind and client order id tell them apart (not for repeat plans)
+    #[serde(default)]
+    pub same_terms: bool,
 }
 
 /// which exchange the manager serves: 0 = first exchange of a real two-exchange `IndexedInstruments`
 /// (map generated by the real `generate_execution_instrument_map`), 1 = exchange index 1 with a map
 /// built through `ExecutionInstrumentMap::new` (instrument indices 0,1), so that a constant or
-/// foreign exchange index in an answer is observable.
+/// foreign exchange index in an answer is observable. 2 / 3 = the builder path (see `build_subject`):
+/// `ExecutionBuilder::add_live` x 2 -> `ExecutionManager::init` -> `run` + `forward_to`, the manager under
+/// test serving BinanceSpot (exchange index 0, instruments 0, 1) / Kraken (exchange index 1, instruments 2, 3).
 type Cfg = u8;
 
 /// `repeats == false`: cid labels in first-occurrence order (restricted growth), (kind, cid) pairwise
@@ -317,54 +354,236 @@ impl ExecutionClient for ScriptClient {
 }
 
 // ------------------------------------------------------------------------------------------------
-// world: index maps + concrete requests
+// world: index maps + concrete requests; the subject (direct or through the builder path)
 // ------------------------------------------------------------------------------------------------
 
 struct World {
     exchange: ExchangeIndex,
-    indexer: AccountEventIndexer,
+    /// the two instruments of the manager's exchange a request can name (cid label parity picks one)
+    instruments: [InstrumentIndex; 2],
 }
 
-fn world(cfg: Cfg) -> World {
-    let map = if cfg == 0 {
-        let instruments = IndexedInstruments::builder()
-            .add_instrument(spot(ExchangeId::BinanceSpot, "b_btc_usdt", "BTCUSDT", "btc", "usdt"))
-            .add_instrument(spot(ExchangeId::BinanceSpot, "b_eth_usdt", "ETHUSDT", "eth", "usdt"))
-            .add_instrument(spot(ExchangeId::Kraken, "k_btc_usdt", "XBT/USDT", "btc", "usdt"))
-            .build();
-        generate_execution_instrument_map(&instruments, ExchangeId::BinanceSpot).expect("map")
+/// How requests reach the manager.
+enum Link {
+    /// the request channel handed to `ExecutionManager::new`
+    Direct(barter_integration::channel::UnboundedTx<ExecutionRequest>),
+    /// the `MultiExchangeTxMap` the builder made; requests are routed the way the engine routes them
+    Built(MultiExchangeTxMap, ExchangeIndex),
+    /// the subject could not be built (it panicked): requests go nowhere
+    Dead,
+    Closed,
+}
+impl Link {
+    /// false: there is no route to the manager (builder path only)
+    fn send(&self, r: ExecutionRequest) -> bool {
+        match self {
+            Link::Direct(tx) => {
+                let _ = tx.send(r);
+                true
+            }
+            Link::Built(map, ex) => match map.find(ex) {
+                Ok(tx) => {
+                    let _ = tx.send(r);
+                    true
+                }
+                Err(_) => false,
+            },
+            Link::Dead => true,
+            Link::Closed => unreachable!("request after the channel was closed"),
+        }
+    }
+    fn shutdown(&self) {
+        match self {
+            Link::Direct(tx) => {
+                let _ = tx.send(ExecutionRequest::Shutdown);
+            }
+            Link::Built(map, _) => {
+                for tx in map.iter() {
+                    let _ = tx.send(ExecutionRequest::Shutdown);
+                }
+            }
+            Link::Dead | Link::Closed => {}
+        }
+    }
+}
+
+/// Client TYPE of the builder path (`ExecutionBuilder::add_live::<Live<K>>`: `EXCHANGE` is an associated
+/// const, so one type per exchange). Opens / cancels are delegated to the shared `ScriptClient`; the account
+/// stream never yields nor ends (the reconnect logic stays idle) and the initial snapshot is empty.
+#[derive(Clone)]
+struct Live<const K: u8>(ScriptClient);
+
+impl<const K: u8> ExecutionClient for Live<K> {
+    const EXCHANGE: ExchangeId = if K == 0 { ExchangeId::BinanceSpot } else { ExchangeId::Kraken };
+    type Config = ScriptClient;
+    type AccountStream = futures::stream::Pending<UnindexedAccountEvent>;
+
+    fn new(c: ScriptClient) -> Self {
+        Live(c)
+    }
+    async fn account_snapshot(
+        &self,
+        _: &[AssetNameExchange],
+        _: &[InstrumentNameExchange],
+    ) -> Result<UnindexedAccountSnapshot, UnindexedClientError> {
+        Ok(UnindexedAccountSnapshot { exchange: Self::EXCHANGE, balances: vec![], instruments: vec![] })
+    }
+    async fn account_stream(
+        &self,
+        _: &[AssetNameExchange],
+        _: &[InstrumentNameExchange],
+    ) -> Result<Self::AccountStream, UnindexedClientError> {
+        Ok(futures::stream::pending())
+    }
+    fn cancel_order(
+        &self,
+        request: OrderRequestCancel<ExchangeId, &InstrumentNameExchange>,
+    ) -> impl Future<Output = UnindexedOrderResponseCancel> + Send {
+        self.0.cancel_order(request)
+    }
+    fn open_order(
+        &self,
+        request: OrderRequestOpen<ExchangeId, &InstrumentNameExchange>,
+    ) -> impl Future<Output = OpenResp> + Send {
+        self.0.open_order(request)
+    }
+    async fn fetch_balances(&self) -> Result<Vec<AssetBalance<AssetNameExchange>>, UnindexedClientError> {
+        Ok(vec![])
+    }
+    async fn fetch_open_orders(
+        &self,
+    ) -> Result<Vec<Order<ExchangeId, InstrumentNameExchange, Open>>, UnindexedClientError> {
+        Ok(vec![])
+    }
+    async fn fetch_trades(
+        &self,
+        _: DateTime<Utc>,
+    ) -> Result<Vec<Trade<QuoteAsset, InstrumentNameExchange>>, UnindexedClientError> {
+        Ok(vec![])
+    }
+}
+
+type SubjectFut = std::pin::Pin<Box<dyn Future<Output = ()>>>;
+
+/// Build the subject for `cfg`:
+///  0 / 1  `ExecutionManager::new(..).run()` (see `Cfg`);
+///  2 / 3  the whole builder path – `ExecutionBuilder::new(&instruments).add_live::<BinanceSpot client>(T)
+///         .add_live::<Kraken client>(T).build()`, its init futures (`ExecutionManager::init`: account
+///         stream + snapshot, response channel merged with the account stream) and then every manager's
+///         `run()` and every `forward_to(merged account channel)` future, polled as ONE subject future. The
+///         manager under test serves BinanceSpot (2) / Kraken (3, exchange index 1, instrument indices 2, 3);
+///         requests go through the `MultiExchangeTxMap`, events are read from the merged account channel.
+fn build_subject(
+    cfg: Cfg,
+    timeout: Duration,
+    client: &ScriptClient,
+) -> (World, Link, barter_integration::channel::UnboundedRx<AccountStreamEvent>, SubjectFut) {
+    if cfg <= 1 {
+        // the (immutable) index map is built once per configuration and shared
+        static MAPS: [std::sync::OnceLock<Arc<ExecutionInstrumentMap>>; 2] = [std::sync::OnceLock::new(), std::sync::OnceLock::new()];
+        let map = MAPS[cfg as usize]
+            .get_or_init(|| {
+                Arc::new(if cfg == 0 {
+                    let instruments = IndexedInstruments::builder()
+                        .add_instrument(spot(ExchangeId::BinanceSpot, "b_btc_usdt", "BTCUSDT", "btc", "usdt"))
+                        .add_instrument(spot(ExchangeId::BinanceSpot, "b_eth_usdt", "ETHUSDT", "eth", "usdt"))
+                        .add_instrument(spot(ExchangeId::Kraken, "k_btc_usdt", "XBT/USDT", "btc", "usdt"))
+                        .build();
+                    generate_execution_instrument_map(&instruments, ExchangeId::BinanceSpot).expect("map")
+                } else {
+                    ExecutionInstrumentMap::new(
+                        Keyed::new(ExchangeIndex(1), ExchangeId::Kraken),
+                        [
+                            (AssetIndex(0), AssetNameExchange::new("XBT")),
+                            (AssetIndex(1), AssetNameExchange::new("USDT")),
+                        ]
+                        .into_iter()
+                        .collect(),
+                        [
+                            (InstrumentIndex(0), InstrumentNameExchange::new("XBT/USDT")),
+                            (InstrumentIndex(1), InstrumentNameExchange::new("ETH/USDT")),
+                        ]
+                        .into_iter()
+                        .collect(),
+                    )
+                })
+            })
+            .clone();
+        let w = World { exchange: map.exchange.key, instruments: [InstrumentIndex(0), InstrumentIndex(1)] };
+        let (req_tx, req_rx) = mpsc_unbounded::<ExecutionRequest>();
+        let (resp_tx, resp_rx) = mpsc_unbounded::<AccountStreamEvent>();
+        let manager = ExecutionManager::new(
+            req_rx.into_stream(),
+            timeout,
+            resp_tx,
+            Arc::new(client.clone()),
+            AccountEventIndexer::new(map),
+        );
+        // `unconstrained`: the subject is polled outside a tokio task; keep tokio's cooperative budget out.
+        let fut: SubjectFut = Box::pin(tokio::task::unconstrained(manager.run()));
+        return (w, Link::Direct(req_tx), resp_rx, fut);
+    }
+    let instruments = IndexedInstruments::builder()
+        .add_instrument(spot(ExchangeId::BinanceSpot, "b_btc_usdt", "BTCUSDT", "btc", "usdt"))
+        .add_instrument(spot(ExchangeId::BinanceSpot, "b_eth_usdt", "ETHUSDT", "eth", "usdt"))
+        .add_instrument(spot(ExchangeId::Kraken, "k_btc_usdt", "XBT/USDT", "btc", "usdt"))
+        .add_instrument(spot(ExchangeId::Kraken, "k_eth_usdt", "ETH/USDT", "eth", "usdt"))
+        .build();
+    let (served, names) = if cfg == 2 {
+        (ExchangeId::BinanceSpot, ["b_btc_usdt", "b_eth_usdt"])
     } else {
-        ExecutionInstrumentMap::new(
-            Keyed::new(ExchangeIndex(1), ExchangeId::Kraken),
-            [
-                (AssetIndex(0), AssetNameExchange::new("XBT")),
-                (AssetIndex(1), AssetNameExchange::new("USDT")),
-            ]
-            .into_iter()
-            .collect(),
-            [
-                (InstrumentIndex(0), InstrumentNameExchange::new("XBT/USDT")),
-                (InstrumentIndex(1), InstrumentNameExchange::new("ETH/USDT")),
-            ]
-            .into_iter()
-            .collect(),
-        )
+        (ExchangeId::Kraken, ["k_btc_usdt", "k_eth_usdt"])
     };
-    World { exchange: map.exchange.key, indexer: AccountEventIndexer::new(Arc::new(map)) }
+    let inst = |n: &str| instruments.find_instrument_index(served, &InstrumentNameInternal::new(n)).expect("instrument index");
+    let w = World {
+        exchange: instruments.find_exchange_index(served).expect("exchange index"),
+        instruments: [inst(names[0]), inst(names[1])],
+    };
+    // the exchange that is not under test gets its own (never inspected) client
+    let other = ScriptClient::default();
+    let (c0, c1) = if cfg == 2 { (client.clone(), other) } else { (other, client.clone()) };
+    let build = ExecutionBuilder::new(&instruments)
+        .add_live::<Live<0>>(c0, timeout)
+        .unwrap_or_else(|e| panic!("ExecutionBuilder::add_live: {e:?}"))
+        .add_live::<Live<1>>(c1, timeout)
+        .unwrap_or_else(|e| panic!("ExecutionBuilder::add_live: {e:?}"))
+        .build();
+    let ExecutionBuild { execution_tx_map, account_channel, futures: build_futures } = build;
+    let inits = build_futures.execution_init_futures;
+    let fut: SubjectFut = Box::pin(tokio::task::unconstrained(async move {
+        match futures::future::try_join_all(inits).await {
+            Ok(pairs) => {
+                futures::future::join_all(pairs.into_iter().flat_map(|(run, forward)| [run, forward])).await;
+            }
+            Err(e) => panic!("ExecutionManager::init failed: {e:?}"),
+        }
+    }));
+    let exchange = w.exchange;
+    (w, Link::Built(execution_tx_map, exchange), account_channel.rx, fut)
+}
+
+thread_local! {
+    /// `Params::same_terms` of the execution running on this thread (an execution never leaves its thread)
+    static SAME_TERMS: std::cell::Cell<bool> = const { std::cell::Cell::new(false) };
 }
 
 fn cid_of(label: u8) -> ClientOrderId {
-    ClientOrderId::new(format!("cid-{}", (b'A' + label) as char))
+    if label < 26 { ClientOrderId::new(format!("cid-{}", (b'A' + label) as char)) } else { ClientOrderId::new(format!("cid-{label}")) }
 }
+/// Instrument and strategy follow the cid label - unless the plan asks for `same_terms`: then every request
+/// names the same instrument and strategy and differs from the others in nothing but kind and client order id.
 fn key_of(w: &World, r: &Req) -> OrderKey<ExchangeIndex, InstrumentIndex> {
+    let label = if SAME_TERMS.with(|f| f.get()) { 0 } else { r.cid };
     OrderKey {
         exchange: w.exchange,
-        instrument: InstrumentIndex((r.cid % 2) as usize),
-        strategy: StrategyId::new(format!("strat-{}", (b'a' + r.cid) as char)),
+        instrument: w.instruments[(label % 2) as usize],
+        strategy: if label < 26 { StrategyId::new(format!("strat-{}", (b'a' + label) as char)) } else { StrategyId::new(format!("strat-{label}")) },
         cid: cid_of(r.cid),
     }
 }
+
 fn open_state(pos: usize) -> RequestOpen {
+    let pos = if SAME_TERMS.with(|f| f.get()) { 1 } else { pos };
     RequestOpen {
         side: if pos % 2 == 0 { Side::Buy } else { Side::Sell },
         price: Decimal::from(100 + pos as i64),
@@ -378,6 +597,7 @@ fn open_state(pos: usize) -> RequestOpen {
     }
 }
 fn cancel_state(pos: usize) -> RequestCancel {
+    let pos = if SAME_TERMS.with(|f| f.get()) { 1 } else { pos };
     RequestCancel { id: if pos % 2 == 0 { Some(OrderId::new(format!("oid-{pos}"))) } else { None } }
 }
 fn exec_request(w: &World, r: &Req, pos: usize) -> ExecutionRequest {
@@ -395,6 +615,7 @@ fn same_content(batch: &[Req], i: usize, j: usize) -> bool {
             Kind::Cancel => cancel_state(i) == cancel_state(j),
         }
 }
+
 
 // ------------------------------------------------------------------------------------------------
 // one execution
@@ -444,104 +665,210 @@ struct Exec {
 
 fn behaviours(kind: Kind, p: &Params) -> Vec<Beh> {
     match kind {
+        Kind::Open if p.filled && p.partial => vec![Beh::Ok, Beh::Err, Beh::Filled, Beh::Partial],
         Kind::Open if p.filled => vec![Beh::Ok, Beh::Err, Beh::Filled],
         _ => vec![Beh::Ok, Beh::Err],
     }
 }
 
-#[allow(unused_assignments)]
+/// The real subject + everything the environment owns (request link, response channel, clock, client
+/// futures) + the log the oracle judges. The schedule explorer (`execute`) and the scripted load layer
+/// (`execute_load`) drive it through the same few environment actions.
+struct Sim<'a> {
+    /// the subject future (dropped inside the runtime context, see `Drop`)
+    fut: Option<SubjectFut>,
+    w: World,
+    cfg: Cfg,
+    batch: &'a [Req],
+    timeout_ms: u64,
+    link: Link,
+    resp_rx: barter_integration::channel::UnboundedRx<AccountStreamEvent>,
+    client: ScriptClient,
+    flag: Arc<crate::explore::env::FlagWaker>,
+    waker: std::task::Waker,
+    done: bool,
+    panicked: Option<String>,
+    unroutable: bool,
+    events: Vec<(u64, AccountStreamEvent)>,
+    initial_snapshots: usize,
+    trace: Vec<String>,
+    handed_at: Vec<Option<u64>>,
+    /// (instant, behaviour, client call existed)
+    completed: Vec<Option<(u64, Beh, bool)>>,
+    next: usize,
+    now: u64,
+    /// the current action happens before the manager has seen the new instant
+    not_yet_run: bool,
+    repeats: Vec<(usize, &'static str)>,
+    /// run() returned (or panicked) before Shutdown / channel close
+    stopped_early: bool,
+    rt: tokio::runtime::Runtime,
+}
+
+impl Drop for Sim<'_> {
+    fn drop(&mut self) {
+        let _guard = self.rt.enter();
+        self.fut.take();
+    }
+}
+
+impl<'a> Sim<'a> {
+    fn new(cfg: Cfg, batch: &'a [Req], timeout_ms: u64, same_terms: bool) -> Self {
+        SAME_TERMS.with(|f| f.set(same_terms));
+        let rt = paused_rt();
+        let client = ScriptClient::default();
+        // building the subject runs code under test too (builder path): a panic there is reported like a panic of
+        // the manager - every request of the batch stays unanswered
+        let mut build_panic = None;
+        let (w, link, resp_rx, fut) = {
+            let _guard = rt.enter();
+            IN_SUBJECT.with(|f| f.set(true));
+            let built = catch_unwind(AssertUnwindSafe(|| build_subject(cfg, Duration::from_millis(timeout_ms), &client)));
+            IN_SUBJECT.with(|f| f.set(false));
+            built.unwrap_or_else(|e| {
+                let msg = e.downcast_ref::<String>().cloned().or_else(|| e.downcast_ref::<&str>().map(|s| s.to_string())).unwrap_or_else(|| "?".into());
+                build_panic = Some(format!("while the execution infrastructure was being built: {msg}"));
+                let dead: SubjectFut = Box::pin(async {});
+                (World { exchange: ExchangeIndex(0), instruments: [InstrumentIndex(0), InstrumentIndex(1)] }, Link::Dead, mpsc_unbounded::<AccountStreamEvent>().1, dead)
+            })
+        };
+        let (flag, waker) = flag_waker();
+        let n = batch.len();
+        Sim {
+            fut: Some(fut),
+            w,
+            cfg,
+            batch,
+            timeout_ms,
+            link,
+            resp_rx,
+            client,
+            flag,
+            waker,
+            done: build_panic.is_some(),
+            panicked: build_panic,
+            unroutable: false,
+            events: Vec::new(),
+            initial_snapshots: 0,
+            trace: Vec::new(),
+            handed_at: vec![None; n],
+            completed: vec![None; n],
+            next: 0,
+            now: 0,
+            not_yet_run: false,
+            repeats: Vec::new(),
+            stopped_early: false,
+            rt,
+        }
+    }
+
+    /// run the manager until it is quiescent, then collect what it reported. Like an executor the harness polls
+    /// the subject only when it has been WOKEN since its last poll (by a request in its channel, a client answer,
+    /// a timer it registered): a deadline nobody registered a wake-up for passes unnoticed, as it would in
+    /// production ("an order shown as in flight is always eventually resolved").
+    fn run_manager(&mut self) {
+        let _guard = self.rt.enter();
+        if !self.done && self.flag.0.load(std::sync::atomic::Ordering::SeqCst) {
+            let fut = self.fut.as_mut().unwrap();
+            IN_SUBJECT.with(|f| f.set(true));
+            let polled = catch_unwind(AssertUnwindSafe(|| poll_quiesce(fut.as_mut(), &self.flag, &self.waker)));
+            IN_SUBJECT.with(|f| f.set(false));
+            match polled {
+                Ok(Poll::Ready(())) => self.done = true,
+                Ok(Poll::Pending) => {}
+                Err(e) => {
+                    let msg = e
+                        .downcast_ref::<String>()
+                        .cloned()
+                        .or_else(|| e.downcast_ref::<&str>().map(|s| s.to_string()))
+                        .unwrap_or_else(|| "?".into());
+                    self.panicked = Some(msg);
+                    self.done = true;
+                }
+            }
+        }
+        while let Ok(ev) = self.resp_rx.rx.try_recv() {
+            // builder path: every manager's account stream starts with its account snapshot - not an answer
+            if self.cfg >= 2 && matches!(&ev, RcEvent::Item(AccountEvent { kind: AccountEventKind::Snapshot(_), .. })) {
+                self.initial_snapshots += 1;
+                continue;
+            }
+            self.events.push((self.now, ev));
+        }
+    }
+
+    /// hand the next `k` requests of the batch to the manager (without running it in between)
+    fn hand(&mut self, k: usize) {
+        for _ in 0..k {
+            let i = self.next;
+            let (batch, now) = (self.batch, self.now);
+            if let Some(prev) = (0..i).rev().find(|j| batch[*j] == batch[i]) {
+                let dl = self.handed_at[prev].unwrap() + self.timeout_ms;
+                self.repeats.push((i, match self.completed[prev] {
+                    Some((c, _, true)) if c < dl => "previous-answered",
+                    Some((c, _, true)) if c == dl => "previous-answered-at-deadline",
+                    Some((_, _, true)) => "previous-timed-out",
+                    Some((_, _, false)) => "previous-never-forwarded",
+                    None if now < dl => "previous-outstanding",
+                    None if now == dl && self.not_yet_run => "previous-timeout-due",
+                    None => "previous-timed-out",
+                }));
+            }
+            if !self.link.send(exec_request(&self.w, &batch[i], i)) {
+                self.unroutable = true;
+            }
+            self.handed_at[i] = Some(now);
+            self.trace.push(format!("t={now}: hand #{i} {:?}", batch[i]));
+            self.next += 1;
+        }
+    }
+
+    /// the client answers request instance `i` with `b` (no manager run)
+    fn answer(&mut self, i: usize, b: Beh) {
+        let existed = complete(&self.client, self.batch, b, i);
+        self.completed[i] = Some((self.now, b, existed));
+        self.trace.push(format!("t={}: client answers #{i} with {b:?}{}", self.now, if existed { "" } else { " (client was never called: void)" }));
+    }
+
+    /// move the virtual clock to `to` [ms] (no manager run)
+    fn advance_to(&mut self, to: u64) {
+        let delta = to - self.now;
+        self.now = to;
+        self.rt.block_on(tokio::time::advance(Duration::from_millis(delta)));
+    }
+
+    /// is there a pending request whose deadline is exactly now (response and timeout may race)?
+    fn race_now(&self) -> bool {
+        (0..self.next).any(|i| self.completed[i].is_none() && self.handed_at[i].unwrap() + self.timeout_ms == self.now)
+    }
+
+    /// horizon far beyond every deadline, then `Shutdown` / closing the request channel
+    fn finish(&mut self, shutdown: bool) {
+        self.run_manager();
+        self.advance_to(self.now + 2 * self.timeout_ms);
+        self.run_manager();
+        self.stopped_early = self.done;
+        if shutdown {
+            self.link.shutdown();
+            self.trace.push(format!("t={}: Shutdown", self.now));
+        } else {
+            self.link = Link::Closed;
+            self.trace.push(format!("t={}: request channel closed", self.now));
+        }
+        self.run_manager();
+    }
+}
+
 fn execute(cfg: Cfg, batch: &[Req], p: &Params, ch: &mut Chooser) -> Exec {
-    let w = world(cfg);
-    let rt = paused_rt();
-    let _guard = rt.enter();
-    let timeout = Duration::from_millis(p.timeout_ms);
-
-    let (req_tx, req_rx) = mpsc_unbounded::<ExecutionRequest>();
-    let (resp_tx, mut resp_rx) = mpsc_unbounded::<AccountStreamEvent>();
-    let client = ScriptClient::default();
-    let manager = ExecutionManager::new(
-        req_rx.into_stream(),
-        timeout,
-        resp_tx,
-        Arc::new(client.clone()),
-        w.indexer.clone(),
-    );
-    // `unconstrained`: the subject is polled outside a tokio task; keep tokio's cooperative budget out.
-    let mut fut = Box::pin(tokio::task::unconstrained(manager.run()));
-    let (flag, waker) = flag_waker();
-
-    let mut done = false;
-    let mut panicked: Option<String> = None;
-    let mut events: Vec<(u64, AccountStreamEvent)> = Vec::new();
-    let mut trace: Vec<String> = Vec::new();
-    let mut req_tx = Some(req_tx);
-
-    // run the manager until it is quiescent, then collect what it reported
-    macro_rules! run_manager {
-        ($now:expr) => {{
-            if !done {
-                IN_SUBJECT.with(|f| f.set(true));
-                let polled = catch_unwind(AssertUnwindSafe(|| poll_quiesce(fut.as_mut(), &flag, &waker)));
-                IN_SUBJECT.with(|f| f.set(false));
-                match polled {
-                    Ok(Poll::Ready(())) => done = true,
-                    Ok(Poll::Pending) => {}
-                    Err(e) => {
-                        let msg = e
-                            .downcast_ref::<String>()
-                            .cloned()
-                            .or_else(|| e.downcast_ref::<&str>().map(|s| s.to_string()))
-                            .unwrap_or_else(|| "?".into());
-                        panicked = Some(msg);
-                        done = true;
-                    }
-                }
-            }
-            while let Ok(ev) = resp_rx.rx.try_recv() {
-                events.push(($now, ev));
-            }
-        }};
-    }
-
+    let mut s = Sim::new(cfg, batch, p.timeout_ms, p.same_terms);
     let n = batch.len();
-    let mut handed_at: Vec<Option<u64>> = vec![None; n];
-    let mut completed: Vec<Option<(u64, Beh, bool)>> = vec![None; n]; // (instant, behaviour, client call existed)
-    let mut next = 0usize;
     let mut idx = 0usize; // index into p.instants
-    let mut now = p.instants[0];
-    assert_eq!(now, 0, "time line starts at 0");
-
+    assert_eq!(p.instants[0], 0, "time line starts at 0");
     let mut must_act = false; // set after "advance without running the manager": an action must follow
-    let mut not_yet_run = false; // the current action happens before the manager has seen the new instant
-    let mut repeats: Vec<(usize, &'static str)> = Vec::new();
     // the first request is handed over at instant 0 (a later first delivery is a time shift)
-    macro_rules! hand {
-        ($k:expr) => {{
-            for _ in 0..$k {
-                let i = next;
-                if let Some(prev) = (0..i).rev().find(|j| batch[*j] == batch[i]) {
-                    let dl = handed_at[prev].unwrap() + p.timeout_ms;
-                    repeats.push((i, match completed[prev] {
-                        Some((c, _, true)) if c < dl => "previous-answered",
-                        Some((c, _, true)) if c == dl => "previous-answered-at-deadline",
-                        Some((_, _, true)) => "previous-timed-out",
-                        Some((_, _, false)) => "previous-never-forwarded",
-                        None if now < dl => "previous-outstanding",
-                        None if now == dl && not_yet_run => "previous-timeout-due",
-                        None => "previous-timed-out",
-                    }));
-                }
-                let _ = req_tx.as_ref().unwrap().send(exec_request(&w, &batch[i], i));
-                handed_at[i] = Some(now);
-                trace.push(format!("t={now}: hand #{i} {:?}", batch[i]));
-                next += 1;
-            }
-        }};
-    }
-    hand!(1);
-    run_manager!(now);
+    s.hand(1);
+    s.run_manager();
 
-    let mut stopped_early = false; // run() returned (or panicked) before Shutdown / channel close
     loop {
         // enabled actions at this point
         #[derive(Clone, Copy)]
@@ -553,20 +880,20 @@ fn execute(cfg: Cfg, batch: &[Req], p: &Params, ch: &mut Chooser) -> Exec {
         }
         let mut acts: Vec<A> = Vec::new();
         let last = idx + 1 == p.instants.len();
-        let may_hand = next < n && now <= p.deliver_until;
+        let may_hand = s.next < n && s.now <= p.deliver_until;
         // all requests of the batch must be handed over: do not leave the delivery window before
-        let must_hand = next < n && (last || p.instants[idx + 1] > p.deliver_until);
+        let must_hand = s.next < n && (last || p.instants[idx + 1] > p.deliver_until);
         if !must_act && !must_hand {
             acts.push(if last { A::Finish } else { A::Advance });
         }
         if may_hand {
             acts.push(A::Hand(1));
-            if p.burst && n - next >= 2 {
+            if p.burst && n - s.next >= 2 {
                 acts.push(A::Hand(2));
             }
         }
-        for i in 0..next {
-            if completed[i].is_none() {
+        for i in 0..s.next {
+            if s.completed[i].is_none() {
                 for b in behaviours(batch[i].kind, p) {
                     acts.push(A::Complete(i, b));
                 }
@@ -574,216 +901,307 @@ fn execute(cfg: Cfg, batch: &[Req], p: &Params, ch: &mut Chooser) -> Exec {
         }
         assert!(!acts.is_empty(), "no enabled action");
         let a = acts[ch.choose(acts.len())];
-        not_yet_run = must_act;
+        s.not_yet_run = must_act;
         must_act = false;
         match a {
             A::Hand(k) => {
-                hand!(k);
-                run_manager!(now);
+                s.hand(k);
+                s.run_manager();
             }
             A::Complete(i, b) => {
-                let existed = complete(&client, batch, b, i);
-                completed[i] = Some((now, b, existed));
-                trace.push(format!("t={now}: client answers #{i} with {b:?}{}", if existed { "" } else { " (client was never called: void)" }));
-                run_manager!(now);
+                s.answer(i, b);
+                s.run_manager();
             }
             A::Advance => {
-                run_manager!(now); // nothing is left unprocessed at the old instant
+                s.run_manager(); // nothing is left unprocessed at the old instant
                 idx += 1;
-                let delta = p.instants[idx] - now;
-                now = p.instants[idx];
-                rt.block_on(tokio::time::advance(Duration::from_millis(delta)));
+                s.advance_to(p.instants[idx]);
                 // a pending request whose deadline is exactly `now`: response and timeout may race
-                let race = (0..next).any(|i| completed[i].is_none() && handed_at[i].unwrap() + p.timeout_ms == now);
-                let others = next < n && now <= p.deliver_until; // a hand-over is possible as next action
-                let any_action = others || (0..next).any(|i| completed[i].is_none());
+                let race = s.race_now();
+                let others = s.next < n && s.now <= p.deliver_until; // a hand-over is possible as next action
+                let any_action = others || (0..s.next).any(|i| s.completed[i].is_none());
                 if race && any_action && ch.choose(2) == 1 {
-                    trace.push(format!("t={now}: clock advanced, manager not yet run"));
+                    s.trace.push(format!("t={}: clock advanced, manager not yet run", s.now));
                     must_act = true;
                 } else {
-                    trace.push(format!("t={now}: clock advanced, manager run"));
-                    run_manager!(now);
+                    s.trace.push(format!("t={}: clock advanced, manager run", s.now));
+                    s.run_manager();
                 }
             }
             A::Finish => {
-                run_manager!(now);
-                // horizon: far beyond every deadline
-                rt.block_on(tokio::time::advance(Duration::from_millis(2 * p.timeout_ms)));
-                now += 2 * p.timeout_ms;
-                run_manager!(now);
-                stopped_early = done;
-                if ch.choose(2) == 0 {
-                    let _ = req_tx.as_ref().unwrap().send(ExecutionRequest::Shutdown);
-                    trace.push(format!("t={now}: Shutdown"));
-                } else {
-                    req_tx = None;
-                    trace.push(format!("t={now}: request channel closed"));
-                }
-                run_manager!(now);
+                s.finish(ch.choose(2) == 0);
                 break;
             }
         }
     }
-    let terminated = done && panicked.is_none();
+    s.judge()
+}
 
-    // ---------------------------------------------------------------------------- oracle
-    let mut viols: Vec<(String, String)> = Vec::new();
-    let mut unanswered: Vec<String> = Vec::new();
-    let mut used = vec![false; events.len()];
-    let expect_of = |i: usize| -> Expect {
-        let deadline = handed_at[i].unwrap() + p.timeout_ms;
-        match completed[i] {
-            Some((c, b, true)) if c < deadline => Expect::Response(b),
-            Some((c, b, true)) if c == deadline => Expect::Either(b),
-            _ => Expect::Timeout,
-        }
-    };
-    let admits = |e: &Expect, c: &Class| match e {
-        Expect::Response(_) => *c == Class::Response,
-        Expect::Timeout => *c == Class::Timeout,
-        Expect::Either(_) => true,
-    };
-    // events attributed to each request instance
-    let mut mine: Vec<Vec<usize>> = vec![Vec::new(); n];
-    let mut group_size = vec![1usize; n];
-    for (i, r) in batch.iter().enumerate() {
-        if handed_at[i].is_none() || batch[..i].contains(r) {
-            continue;
-        }
-        // the group: all handed instances of this (kind, cid), and all events that answer (kind, cid)
-        let members: Vec<usize> = (i..n).filter(|j| batch[*j] == *r && handed_at[*j].is_some()).collect();
-        let cid = cid_of(r.cid);
-        let evs: Vec<(usize, Class, Option<usize>)> = events
-            .iter()
-            .enumerate()
-            .filter_map(|(e, (_, ev))| {
-                let (kind, ev_cid, class, answer_tag, echo) = event_tags(ev)?;
-                if kind != r.kind || *ev_cid != cid {
-                    return None;
-                }
-                // instance tag: from the client's own answer, else from the echoed open request
-                let tag = answer_tag
-                    .filter(|t| members.contains(t))
-                    .or_else(|| echo.and_then(|st| members.iter().copied().find(|m| open_state(*m) == st)));
-                Some((e, class, tag))
-            })
-            .collect();
-        for m in &members {
-            group_size[*m] = members.len();
-        }
-        if members.len() == 1 {
-            mine[i] = evs.iter().map(|e| e.0).collect();
-            continue;
-        }
-        // repeated request: tagged events go to their instance ...
-        let mut rest = Vec::new();
-        for (e, class, tag) in &evs {
-            match tag {
-                Some(t) => mine[*t].push(*e),
-                None => rest.push((*e, class.clone())),
-            }
-        }
-        // ... the others to an instance that still lacks an answer and admits the class (strict
-        // expectation first: optimal, since only "either" instances are contended between the classes);
-        // what is left over is surplus: shown on an unanswered instance if any, else as a duplicate
-        for (e, class) in rest {
-            let empty = |m: &&usize| mine[**m].is_empty();
-            let strict = |m: &&usize| !matches!(expect_of(**m), Expect::Either(_));
-            let target = members
-                .iter()
-                .filter(empty)
-                .filter(|m| admits(&expect_of(**m), &class))
-                .find(strict)
-                .or_else(|| members.iter().filter(empty).find(|m| admits(&expect_of(**m), &class)))
-                .or_else(|| members.iter().find(empty))
-                .or_else(|| members.iter().find(|m| admits(&expect_of(**m), &class)))
-                .unwrap_or(&members[0]);
-            mine[*target].push(e);
+// ------------------------------------------------------------------------------------------------
+// load layer: MANY requests outstanding at once (scripted schedules, every n up to the bound)
+// ------------------------------------------------------------------------------------------------
+
+/// Which kinds the n requests of a load batch have (client order ids are pairwise distinct).
+#[derive(Debug, Clone, Copy, PartialEq, Eq, Hash, Serialize, Deserialize)]
+pub enum LoadKinds {
+    Opens,
+    Cancels,
+    Alternating,
+}
+/// What the client does with the n outstanding requests (T = request timeout, all handed over at t = 0).
+#[derive(Debug, Clone, Copy, PartialEq, Eq, Hash, Serialize, Deserialize)]
+pub enum LoadMode {
+    /// every request answered Ok at T/2, newest first, the manager run after each answer
+    AnswerAllReversed,
+    /// every request answered (Ok / Err alternating) at T/2 at once: the manager finds all answers ready together
+    AnswerAllAtOnce,
+    /// nobody answers: n timeouts fall due at the same instant
+    AnswerNone,
+    /// request i: i%3==0 answered Ok at T/2, i%3==1 answered Err at T/2, i%3==2 never (answers and timeouts mixed)
+    Mixed,
+}
+const LOAD_KINDS: [LoadKinds; 3] = [LoadKinds::Opens, LoadKinds::Cancels, LoadKinds::Alternating];
+const LOAD_MODES: [LoadMode; 4] = [LoadMode::AnswerAllReversed, LoadMode::AnswerAllAtOnce, LoadMode::AnswerNone, LoadMode::Mixed];
+const LOAD_TIMEOUT_MS: u64 = 200;
+
+fn load_batch(n: usize, kinds: LoadKinds) -> Vec<Req> {
+    (0..n)
+        .map(|i| Req {
+            kind: match kinds {
+                LoadKinds::Opens => Kind::Open,
+                LoadKinds::Cancels => Kind::Cancel,
+                LoadKinds::Alternating => if i % 2 == 0 { Kind::Open } else { Kind::Cancel },
+            },
+            cid: i as u8,
+        })
+        .collect()
+}
+
+/// One scripted execution with `n` requests outstanding together. `burst`: all n requests are in the request
+/// channel before the manager runs (else the manager runs after each hand-over).
+fn execute_load(cfg: Cfg, n: usize, kinds: LoadKinds, mode: LoadMode, burst: bool, shutdown: bool) -> Exec {
+    assert!(n <= 255, "cid labels are single bytes");
+    let batch = load_batch(n, kinds);
+    let mut s = Sim::new(cfg, &batch, LOAD_TIMEOUT_MS, false);
+    if burst {
+        s.hand(n);
+        s.run_manager();
+    } else {
+        for _ in 0..n {
+            s.hand(1);
+            s.run_manager();
         }
     }
-    let mut outcome = Vec::new();
-    for (i, r) in batch.iter().enumerate() {
-        let Some(h) = handed_at[i] else { continue };
-        let deadline = h + p.timeout_ms;
-        let expect = expect_of(i);
-        let key = key_of(&w, r);
-        let repeated = if group_size[i] > 1 { "repeated-request/" } else { "" };
-        let mut classes = Vec::new();
-        mine[i].sort();
-        for e in &mine[i] {
-            let (at, ev) = &events[*e];
-            let Some((class, problems)) = judge_event(&w, r, i, &key, completed[i].map(|c| c.1), ev) else { continue };
-            used[*e] = true;
-            for (field, detail) in problems {
-                let c = if class == Class::Timeout { "timeout" } else { "response" };
+    s.advance_to(LOAD_TIMEOUT_MS / 2);
+    s.run_manager();
+    match mode {
+        LoadMode::AnswerAllReversed => {
+            for i in (0..n).rev() {
+                s.answer(i, Beh::Ok);
+                s.run_manager();
+            }
+        }
+        LoadMode::AnswerAllAtOnce => {
+            for i in 0..n {
+                s.answer(i, if i % 2 == 0 { Beh::Ok } else { Beh::Err });
+            }
+            s.run_manager();
+        }
+        LoadMode::AnswerNone => {}
+        LoadMode::Mixed => {
+            for i in 0..n {
+                match i % 3 {
+                    0 => s.answer(i, Beh::Ok),
+                    1 => s.answer(i, Beh::Err),
+                    _ => continue,
+                }
+                s.run_manager();
+            }
+        }
+    }
+    s.advance_to(LOAD_TIMEOUT_MS);
+    s.run_manager();
+    s.finish(shutdown);
+    s.judge()
+}
+
+impl Sim<'_> {
+    /// The oracle: judge the finished execution (see the module doc).
+    fn judge(&mut self) -> Exec {
+        let (w, batch, n) = (&self.w, self.batch, self.batch.len());
+        let (handed_at, completed, events) = (&self.handed_at, &self.completed, &self.events);
+        let timeout_ms = self.timeout_ms;
+        let terminated = self.done && self.panicked.is_none();
+        let mut viols: Vec<(String, String)> = Vec::new();
+        let mut unanswered: Vec<String> = Vec::new();
+        let mut used = vec![false; events.len()];
+        let expect_of = |i: usize| -> Expect {
+            let deadline = handed_at[i].unwrap() + timeout_ms;
+            match completed[i] {
+                Some((c, b, true)) if c < deadline => Expect::Response(b),
+                Some((c, b, true)) if c == deadline => Expect::Either(b),
+                _ => Expect::Timeout,
+            }
+        };
+        let admits = |e: &Expect, c: &Class| match e {
+            Expect::Response(_) => *c == Class::Response,
+            Expect::Timeout => *c == Class::Timeout,
+            Expect::Either(_) => true,
+        };
+        // events attributed to each request instance
+        let mut mine: Vec<Vec<usize>> = vec![Vec::new(); n];
+        let mut group_size = vec![1usize; n];
+        // which (kind, cid) each event answers + its instance tags (one pass over the events)
+        let tags: Vec<_> = events.iter().map(|(_, ev)| event_tags(ev)).collect();
+        for (i, r) in batch.iter().enumerate() {
+            if handed_at[i].is_none() || batch[..i].contains(r) {
+                continue;
+            }
+            // the group: all handed instances of this (kind, cid), and all events that answer (kind, cid)
+            let members: Vec<usize> = (i..n).filter(|j| batch[*j] == *r && handed_at[*j].is_some()).collect();
+            let cid = cid_of(r.cid);
+            let evs: Vec<(usize, Class, Option<usize>)> = tags
+                .iter()
+                .enumerate()
+                .filter_map(|(e, t)| {
+                    let (kind, ev_cid, class, answer_tag, echo) = t.clone()?;
+                    if kind != r.kind || *ev_cid != cid {
+                        return None;
+                    }
+                    // instance tag: from the client's own answer, else from the echoed open request
+                    let tag = answer_tag
+                        .filter(|t| members.contains(t))
+                        .or_else(|| echo.and_then(|st| members.iter().copied().find(|m| open_state(*m) == st)));
+                    Some((e, class, tag))
+                })
+                .collect();
+            for m in &members {
+                group_size[*m] = members.len();
+            }
+            if members.len() == 1 {
+                mine[i] = evs.iter().map(|e| e.0).collect();
+                continue;
+            }
+            // repeated request: tagged events go to their instance ...
+            let mut rest = Vec::new();
+            for (e, class, tag) in &evs {
+                match tag {
+                    Some(t) => mine[*t].push(*e),
+                    None => rest.push((*e, class.clone())),
+                }
+            }
+            // ... the others to an instance that still lacks an answer and admits the class (strict
+            // expectation first: optimal, since only "either" instances are contended between the classes);
+            // what is left over is surplus: shown on an unanswered instance if any, else as a duplicate
+            for (e, class) in rest {
+                let empty = |m: &&usize| mine[**m].is_empty();
+                let strict = |m: &&usize| !matches!(expect_of(**m), Expect::Either(_));
+                let target = members
+                    .iter()
+                    .filter(empty)
+                    .filter(|m| admits(&expect_of(**m), &class))
+                    .find(strict)
+                    .or_else(|| members.iter().filter(empty).find(|m| admits(&expect_of(**m), &class)))
+                    .or_else(|| members.iter().find(empty))
+                    .or_else(|| members.iter().find(|m| admits(&expect_of(**m), &class)))
+                    .unwrap_or(&members[0]);
+                mine[*target].push(e);
+            }
+        }
+        let mut outcome = Vec::new();
+        for (i, r) in batch.iter().enumerate() {
+            let Some(h) = handed_at[i] else { continue };
+            let deadline = h + timeout_ms;
+            let expect = expect_of(i);
+            let key = key_of(w, r);
+            let repeated = if group_size[i] > 1 { "repeated-request/" } else { "" };
+            let mut classes = Vec::new();
+            mine[i].sort();
+            for e in &mine[i] {
+                let (at, ev) = &events[*e];
+                let Some((class, problems)) = judge_event(w, r, i, &key, completed[i].map(|c| c.1), ev) else { continue };
+                used[*e] = true;
+                for (field, detail) in problems {
+                    let c = if class == Class::Timeout { "timeout" } else { "response" };
+                    viols.push((
+                        if field == "content" {
+                            format!("C07/response-content/{}/client-answer={}", r.kind.s(), completed[i].map(|c| format!("{:?}", c.1)).unwrap_or("none".into()))
+                        } else {
+                            format!("C07/attribution/{}/{c}/{field}", r.kind.s())
+                        },
+                        format!("request #{i} {r:?} key={key:?}: event at t={at} {detail}; event={ev:?}"),
+                    ));
+                }
+                classes.push(class);
+            }
+            classes.sort();
+            let got = match classes.as_slice() {
+                [] => "none",
+                [Class::Response] => "response",
+                [Class::Timeout] => "timeout",
+                cs if cs.iter().all(|c| *c == Class::Response) => "duplicate-response",
+                cs if cs.iter().all(|c| *c == Class::Timeout) => "duplicate-timeout",
+                _ => "both",
+            };
+            let (exp_s, ok) = match &expect {
+                Expect::Response(_) => ("response", got == "response"),
+                Expect::Timeout => ("timeout", got == "timeout"),
+                Expect::Either(_) => ("either", got == "response" || got == "timeout"),
+            };
+            if !ok && got == "none" && self.stopped_early {
+                // consequence of the manager having stopped: folded into one signature below
+                unanswered.push(format!("#{i} {r:?} (expected {exp_s})"));
+            } else if !ok {
+                // a batch is shown in full only when it is small
+                let batch_txt = if n <= 8 { format!("{batch:?}") } else { format!("{n} requests") };
                 viols.push((
-                    if field == "content" {
-                        format!("C07/response-content/{}/client-answer={}", r.kind.s(), completed[i].map(|c| format!("{:?}", c.1)).unwrap_or("none".into()))
-                    } else {
-                        format!("C07/attribution/{}/{c}/{field}", r.kind.s())
-                    },
-                    format!("request #{i} {r:?} key={key:?}: event at t={at} {detail}; event={ev:?}"),
+                    format!("C07/answer/{repeated}{}/expected={exp_s}/got={got}", r.kind.s()),
+                    format!(
+                        "request #{i} {r:?} handed at t={h} (deadline t={deadline}), client answer {:?}: expected exactly one {exp_s}, observed {classes:?}{}{}",
+                        completed[i].map(|c| (c.0, c.1)),
+                        if group_size[i] > 1 {
+                            format!(" [{}one of {} requests for this (kind, cid) in the batch {batch_txt}; events without an instance tag were distributed in favour of the manager]", self.repeats.iter().find(|x| x.0 == i).map(|x| format!("{}; ", x.1)).unwrap_or_default(), group_size[i])
+                        } else {
+                            String::new()
+                        },
+                        if terminated { "" } else { " [manager did not terminate normally]" }
+                    ),
                 ));
             }
-            classes.push(class);
+            outcome.push((*r, expect, classes));
         }
-        classes.sort();
-        let got = match classes.as_slice() {
-            [] => "none",
-            [Class::Response] => "response",
-            [Class::Timeout] => "timeout",
-            cs if cs.iter().all(|c| *c == Class::Response) => "duplicate-response",
-            cs if cs.iter().all(|c| *c == Class::Timeout) => "duplicate-timeout",
-            _ => "both",
-        };
-        let (exp_s, ok) = match &expect {
-            Expect::Response(_) => ("response", got == "response"),
-            Expect::Timeout => ("timeout", got == "timeout"),
-            Expect::Either(_) => ("either", got == "response" || got == "timeout"),
-        };
-        if !ok && got == "none" && stopped_early {
-            // consequence of the manager having stopped: folded into one signature below
-            unanswered.push(format!("#{i} {r:?} (expected {exp_s})"));
-        } else if !ok {
-            viols.push((
-                format!("C07/answer/{repeated}{}/expected={exp_s}/got={got}", r.kind.s()),
-                format!(
-                    "request #{i} {r:?} handed at t={h} (deadline t={deadline}), client answer {:?}: expected exactly one {exp_s}, observed {classes:?}{}{}",
-                    completed[i].map(|c| (c.0, c.1)),
-                    if group_size[i] > 1 {
-                        format!(" [{}one of {} requests for this (kind, cid) in the batch {batch:?}; events without an instance tag were distributed in favour of the manager]", repeats.iter().find(|x| x.0 == i).map(|x| format!("{}; ", x.1)).unwrap_or_default(), group_size[i])
-                    } else {
-                        String::new()
-                    },
-                    if terminated { "" } else { " [manager did not terminate normally]" }
-                ),
-            ));
-        }
-        outcome.push((*r, expect, classes));
-    }
-    if !unanswered.is_empty() {
-        let (sig, why) = match &panicked {
-            Some(msg) => ("C07/manager-panicked/requests-unanswered", format!("ExecutionManager::run panicked: {msg}")),
-            None => ("C07/manager-stopped-without-shutdown/requests-unanswered", "ExecutionManager::run returned although neither Shutdown was sent nor the request channel closed".to_string()),
-        };
-        viols.push((sig.into(), format!("{why}; requests left without any answer: {unanswered:?}")));
-    }
-    for (e, (at, ev)) in events.iter().enumerate() {
-        if !used[e] {
-            let what = match ev {
-                RcEvent::Reconnecting(_) => "reconnecting",
-                RcEvent::Item(AccountEvent { kind: AccountEventKind::OrderSnapshot(_), .. }) => "open",
-                RcEvent::Item(AccountEvent { kind: AccountEventKind::OrderCancelled(_), .. }) => "cancel",
-                _ => "other-event",
+        if !unanswered.is_empty() {
+            let (sig, why) = match &self.panicked {
+                Some(msg) => ("C07/manager-panicked/requests-unanswered", format!("ExecutionManager::run panicked: {msg}")),
+                None => ("C07/manager-stopped-without-shutdown/requests-unanswered", "ExecutionManager::run returned although neither Shutdown was sent nor the request channel closed".to_string()),
             };
+            viols.push((sig.into(), format!("{why}; requests left without any answer: {unanswered:?}")));
+        }
+        if self.unroutable {
             viols.push((
-                format!("C07/unsolicited/{what}"),
-                format!("event at t={at} answers no request of the batch {batch:?}: {ev:?}"),
+                "C07/builder-path/no-route-to-the-manager".into(),
+                format!("the MultiExchangeTxMap built by ExecutionBuilder has no link for {:?}, for which an execution manager was added", w.exchange),
             ));
         }
+        for (e, (at, ev)) in events.iter().enumerate() {
+            if !used[e] {
+                let what = match ev {
+                    RcEvent::Reconnecting(_) => "reconnecting",
+                    RcEvent::Item(AccountEvent { kind: AccountEventKind::OrderSnapshot(_), .. }) => "open",
+                    RcEvent::Item(AccountEvent { kind: AccountEventKind::OrderCancelled(_), .. }) => "cancel",
+                    _ => "other-event",
+                };
+                viols.push((
+                    format!("C07/unsolicited/{what}"),
+                    format!("event at t={at} answers no request of the batch{}: {ev:?}", if n <= 8 { format!(" {batch:?}") } else { String::new() }),
+                ));
+            }
+        }
+        Exec { viols, outcome, repeats: std::mem::take(&mut self.repeats), terminated, trace: std::mem::take(&mut self.trace) }
     }
-    Exec { viols, outcome, repeats, terminated, trace }
 }
+
+
 
 /// Complete the client future of the request INSTANCE at position `pos` of the batch; false if the
 /// manager never called the client for it. The client call of an instance is recognised by kind, cid
@@ -813,6 +1231,7 @@ fn complete(client: &ScriptClient, batch: &[Req], b: Beh, pos: usize) -> bool {
             let state = match b {
                 Beh::Ok => Ok(open_meta(pos, Decimal::ZERO)),
                 Beh::Filled => Ok(open_meta(pos, st.quantity)),
+                Beh::Partial => Ok(open_meta(pos, st.quantity / Decimal::TWO)),
                 Beh::Err => Err(client_error(pos)),
             };
             // a late answer finds the receiver gone: that is fine
@@ -916,6 +1335,8 @@ fn judge_event(
                     Some(Beh::Filled) => {
                         o.state == OrderState::fully_filled() || o.state == OrderState::active(open_meta(pos, st.quantity))
                     }
+                    // an order that is partly filled is still open: the client's answer says how much is filled
+                    Some(Beh::Partial) => o.state == OrderState::active(open_meta(pos, st.quantity / Decimal::TWO)),
                     Some(Beh::Err) => o.state == OrderState::inactive(client_error_indexed(pos)),
                     None => false, // a response although the client never answered
                 };
@@ -1064,6 +1485,8 @@ pub fn run(ctx: &Ctx) -> Outcome {
         deliver_until: 100,
         burst,
         filled,
+        partial: false,
+        same_terms: false,
     };
     // epsilon instants around the deadlines (199/200/201 and 299/300/301) for the thorough tier
     let eps = |filled: bool| Params {
@@ -1072,6 +1495,8 @@ pub fn run(ctx: &Ctx) -> Outcome {
         deliver_until: 100,
         burst: false,
         filled,
+        partial: false,
+        same_terms: false,
     };
     // repeat plans: T = 1 tick and hand-overs up to 2 ticks, so that a request can be re-issued after the
     // earlier instance was answered, while it is outstanding, exactly at its deadline (before or after
@@ -1082,11 +1507,18 @@ pub fn run(ctx: &Ctx) -> Outcome {
         deliver_until,
         burst,
         filled,
+        partial: false,
+        same_terms: false,
     };
     // (label, n, repeated (kind, cid) batches?, cfgs, params, deviation bound)
     let mut plans: Vec<(&str, usize, bool, Vec<Cfg>, Params, Option<usize>)> = vec![
-        ("n=1", 1, false, vec![0, 1], uniform(true, true), None),
-        ("n=2", 2, false, vec![0, 1], uniform(true, true), None),
+        // (cfg 2, 3: the same schedules through the builder path; `partial`: opens may also be answered partly filled)
+        ("n=1", 1, false, vec![0, 1, 2, 3], Params { partial: true, ..uniform(true, true) }, None),
+        ("n=2", 2, false, vec![0, 1, 2, 3], Params { partial: true, ..uniform(true, true) }, None),
+        // a request timeout with whole seconds AND a sub-second part (T = 1.5 s, instants T/2 apart)
+        ("n=2/T=1.5s", 2, false, vec![1, 2], Params { timeout_ms: 1500, instants: vec![0, 750, 1500, 2250, 3000], deliver_until: 750, burst: true, filled: false, partial: false, same_terms: false }, None),
+        // identical terms: the requests differ in nothing but kind and client order id
+        ("n=2/same-terms", 2, false, vec![0, 3], Params { same_terms: true, ..uniform(false, true) }, None),
         ("n=2/repeat", 2, true, vec![0, 1], uniform(true, true), None),
         ("n=2/repeat/late", 2, true, vec![0, 1], late(true, true, 200), None),
     ];
@@ -1100,13 +1532,16 @@ pub fn run(ctx: &Ctx) -> Outcome {
         plans.push(("n=3/eps", 3, false, vec![0], eps(false), Some(4)));
         plans.push(("n=4", 4, false, vec![0], uniform(false, false), Some(4)));
         // three hand-over instants, T = 3 ticks: requests whose deadlines are all different
-        let t3 = Params { timeout_ms: 300, instants: vec![0, 100, 200, 300, 400, 500, 600], deliver_until: 200, burst: false, filled: false };
+        let t3 = Params { timeout_ms: 300, instants: vec![0, 100, 200, 300, 400, 500, 600], deliver_until: 200, burst: false, filled: false, partial: false, same_terms: false };
         plans.push(("n=3/T=3ticks", 3, false, vec![1], t3, None));
         plans.push(("n=3/repeat", 3, true, vec![0, 1], uniform(false, true), None));
         plans.push(("n=3/repeat/late", 3, true, vec![0, 1], late(false, true, 200), None));
         plans.push(("n=2/repeat/eps", 2, true, vec![1], eps(true), None));
         plans.push(("n=4/repeat", 4, true, vec![1], uniform(false, false), Some(4)));
         plans.push(("n=4/repeat/late", 4, true, vec![0], late(false, false, 200), Some(4)));
+        plans.push(("n=3/builder", 3, false, vec![3], uniform(false, false), None));
+        plans.push(("n=3/same-terms", 3, false, vec![1], Params { same_terms: true, ..uniform(false, false) }, None));
+        plans.push(("n=2/repeat/builder", 2, true, vec![2, 3], late(true, true, 200), None));
     }
 
     let t = Tally {
@@ -1142,6 +1577,70 @@ pub fn run(ctx: &Ctx) -> Outcome {
         }));
         eprintln!("C07 {label}: batches={} cfgs={} executions={execs} elapsed={:.1}s", batches.len(), cfgs.len(), ctx.start.elapsed().as_secs_f64());
     }
+    // ---- load layer: every n up to the bound x kinds x client behaviour x hand-over style, scripted schedules
+    let load_max: usize = ctx.tier.pick(100, 255);
+    let load_cfgs: Vec<Cfg> = vec![1, 2];
+    let mut load_jobs: Vec<(Cfg, usize, LoadKinds, LoadMode, bool)> = Vec::new();
+    for cfg in &load_cfgs {
+        for n in 1..=load_max {
+            for kinds in LOAD_KINDS {
+                for mode in LOAD_MODES {
+                    for burst in [false, true] {
+                        load_jobs.push((*cfg, n, kinds, mode, burst));
+                    }
+                }
+            }
+        }
+    }
+    let load_answers = AtomicU64::new(0);
+    let load_max_outstanding = AtomicU64::new(0);
+    let before_load = t.executions.load(Ordering::Relaxed);
+    load_jobs.par_iter().for_each(|(cfg, n, kinds, mode, burst)| {
+        let shutdown = n % 2 == 0;
+        let case = json!({"engine": "load", "cfg": cfg, "n": n, "kinds": kinds, "mode": mode, "burst": burst, "shutdown": shutdown});
+        let ex = execute_load(*cfg, *n, *kinds, *mode, *burst, shutdown);
+        if n % 16 == 0 {
+            // determinism self-check
+            let ex2 = execute_load(*cfg, *n, *kinds, *mode, *burst, shutdown);
+            let sigs = |e: &Exec| e.viols.iter().map(|v| v.0.clone()).collect::<Vec<_>>();
+            if ex2.outcome != ex.outcome || sigs(&ex2) != sigs(&ex) {
+                if ex.viols.is_empty() && ex2.viols.is_empty() {
+                    let mut g = t.nondeterministic.lock().unwrap();
+                    g.0 += 1;
+                    let h = hash_of(&case.to_string());
+                    if g.1.as_ref().map(|(h0, _)| h < *h0).unwrap_or(true) {
+                        g.1 = Some((h, case.clone()));
+                    }
+                }
+                for (sig, detail) in ex2.viols {
+                    ctx.violate(sig, format!("{detail} || {n} requests outstanding together ({kinds:?}, {mode:?}, burst={burst})"), case.clone());
+                }
+            }
+            t.selfchecks.fetch_add(1, Ordering::Relaxed);
+        }
+        t.executions.fetch_add(1, Ordering::Relaxed);
+        if ex.terminated {
+            t.terminated.fetch_add(1, Ordering::Relaxed);
+        }
+        load_max_outstanding.fetch_max(*n as u64, Ordering::Relaxed);
+        for (_, _, classes) in &ex.outcome {
+            load_answers.fetch_add(classes.len() as u64, Ordering::Relaxed);
+            for c in classes {
+                match c {
+                    Class::Response => t.answered_by_response.fetch_add(1, Ordering::Relaxed),
+                    Class::Timeout => t.answered_by_timeout.fetch_add(1, Ordering::Relaxed),
+                };
+            }
+        }
+        t.distinct.add(&(cfg, n, kinds, mode, ex.outcome.clone()));
+        for (sig, detail) in ex.viols {
+            // the whole schedule of a large batch is long: the replay prints it
+            ctx.violate(sig, format!("{detail} || load layer: {n} requests outstanding together ({kinds:?}, {mode:?}, burst={burst})"), case.clone());
+        }
+    });
+    let load_execs = t.executions.load(Ordering::Relaxed) - before_load;
+    eprintln!("C07 load: n=1..={load_max} cfgs={} executions={load_execs} elapsed={:.1}s", load_cfgs.len(), ctx.start.elapsed().as_secs_f64());
+
     let executions = t.executions.load(Ordering::Relaxed);
     let nondet = t.nondeterministic.lock().unwrap().clone();
     if let (n, Some((_, case))) = &nondet {
@@ -1166,22 +1665,46 @@ pub fn run(ctx: &Ctx) -> Outcome {
             "repeated_requests_by_state_of_previous_instance": *t.repeats.lock().unwrap(),
             "exhaustive": all_exhaustive,
             "plans": per_plan,
-            "rule": "every environment schedule (hand-over instants, per-request client answer Ok/Err/filled before/at/after the deadline or never, all answer orders, manager run before/after an answer at the deadline instant, Shutdown/close) of every batch of n open/cancel requests with colliding cids (incl. the same (kind, cid) requested repeatedly), executed on the real ExecutionManager::run under virtual time; per request exactly one answer of the class the statement prescribes, correctly attributed",
+            "load_layer": {
+                "requests_outstanding_together": format!("every n in 1..={load_max}"), "max_outstanding": load_max_outstanding.load(Ordering::Relaxed),
+                "configs": load_cfgs, "kinds": LOAD_KINDS, "client_modes": LOAD_MODES, "hand_over": ["one by one", "all before the manager runs"],
+                "timeout_ms": LOAD_TIMEOUT_MS, "executions": load_execs, "answers_observed": load_answers.load(Ordering::Relaxed),
+            },
+            "rule": "every environment schedule (hand-over instants, per-request client answer Ok/Err/filled before/at/after the deadline or never, all answer orders, manager run before/after an answer at the deadline instant, Shutdown/close) of every batch of n open/cancel requests with colliding cids (incl. the same (kind, cid) requested repeatedly), executed on the real ExecutionManager::run under virtual time - directly (ExecutionManager::new) and through the builder path (ExecutionBuilder::add_live x 2 exchanges -> ExecutionManager::init -> run + forward_to the merged account channel, requests routed through the MultiExchangeTxMap); plus a load layer with every number n <= bound of requests outstanding together under scripted client behaviour; per request exactly one answer of the class the statement prescribes, correctly attributed",
             "samples": t.samples.lock().unwrap().values().cloned().collect::<Vec<_>>(),
         }),
         assumptions: vec![
             "an open and a cancel may share a cid; in the 'repeat' plans the same (kind, cid) is requested two or more times (after the earlier one was answered / timed out / while outstanding): every instance needs its own single answer, events without an instance tag (cancel timeouts) are matched per (kind, cid) as a multiset of answer classes; forwarding or not de-duplicating repeated requests is neither demanded nor forbidden".into(),
             "requests name instruments configured for the manager's exchange (the code panics otherwise by design)".into(),
             "the client echoes the order key it was called with; its error answer is an API rejection (distinguishable from a timeout failure)".into(),
-            "the manager task is run whenever the clock reaches a new instant before anything later happens (no scheduler starvation); only at the deadline instant itself the order is an environment choice".into(),
+            "the manager task is run whenever it has been woken and before anything later happens (no scheduler starvation, no spurious polls); only at the deadline instant itself the order is an environment choice".into(),
             "select!'s random start branch is not enumerated; the oracle ignores the order of events".into(),
             "virtual instants are whole milliseconds (tokio timer granularity)".into(),
+            "builder path: the client's account stream stays silent and its initial snapshot is empty; the account snapshot every manager emits first is not an answer and is skipped".into(),
+            "load layer: schedules are scripted (answers newest-first / all at once / none / mixed at T/2), not enumerated; client order ids pairwise distinct".into(),
         ],
     }
 }
 
 pub fn replay(ctx: &Ctx, case: &Value) {
     let cfg: Cfg = serde_json::from_value(case["cfg"].clone()).expect("replay: cfg");
+    if case["engine"].as_str() == Some("load") {
+        install_quiet_hook();
+        let n = case["n"].as_u64().expect("replay: n") as usize;
+        let kinds: LoadKinds = serde_json::from_value(case["kinds"].clone()).expect("replay: kinds");
+        let mode: LoadMode = serde_json::from_value(case["mode"].clone()).expect("replay: mode");
+        let burst = case["burst"].as_bool().expect("replay: burst");
+        let shutdown = case["shutdown"].as_bool().expect("replay: shutdown");
+        let ex = execute_load(cfg, n, kinds, mode, burst, shutdown);
+        for line in &ex.trace {
+            println!("replay: {line}");
+        }
+        println!("replay: manager terminated normally = {}", ex.terminated);
+        for (sig, detail) in ex.viols {
+            ctx.violate(sig, detail, case.clone());
+        }
+        return;
+    }
     let batch: Vec<Req> = serde_json::from_value(case["batch"].clone()).expect("replay: batch");
     let p: Params = serde_json::from_value(case["params"].clone()).expect("replay: params");
     let choices: Vec<usize> = serde_json::from_value(case["choices"].clone()).expect("replay: choices");
